@@ -156,7 +156,11 @@ func (ex *Exec) ectx(f *Frame, st *State) *ExprCtx {
 	if f.fn.Pkg != nil {
 		pkg = f.fn.Pkg.Pkg
 	}
-	return &ExprCtx{w: ex.w, cs: ex.prog.CS, st: st, old: ex.entry, vars: vars, pkg: pkg, fnName: ex.prog.funcName, global: ex.globalTV(f, st)}
+	ec := &ExprCtx{w: ex.w, cs: ex.prog.CS, st: st, old: ex.entry, vars: vars, pkg: pkg, fnName: ex.prog.funcName, global: ex.globalTV(f, st)}
+	if f.depth == 0 {
+		ec.entry = f.params
+	}
+	return ec
 }
 
 // globalTV resolves package-level variables in contract expressions.
@@ -290,6 +294,11 @@ func runFunction(prog *Prog, name string, fn *ssa.Function, con *Contract) *Exec
 		ex.w.initialContent = false
 		if pv, ok := v.(VPtr); ok && i == 0 && sig.Recv() != nil {
 			pv.Nil = "false"
+			v = pv
+		}
+		if pv, ok := v.(VPtr); ok && (con.Nilable[p.Name()] || (i < len(con.ParamNames) && con.Nilable[con.ParamNames[i]])) {
+			// callers may pass nil: treated like a pointer read from the wire
+			pv.Origin = OrigMem
 			v = pv
 		}
 		f.regs[p] = v
